@@ -8,8 +8,8 @@
    [purity_s], [purity_i] are Re tr((F F^dagger)^2)/(tr F F^dagger)^2 and Re tr((F^dagger F)^2)/(tr F^dagger F)^2 of the
    sampled matrix F(s,i) = F[get_1d_index(s,i,n)]; [ts_rates_Q0], [purity_s_Q] are the executable rational instances. *)
 From Coq Require Import Reals QArith Lra List.
-From SpdVerif Require Import Model.FinSum Model.Hom Model.Hom2 Proofs.FinSum_lemmas Proofs.Cx_lemmas Proofs.CMat Proofs.C10_sums
-  Proofs.C10_svd Proofs.C10_expand Proofs.C10_identical Proofs.C10_setup Proofs.C10_exec Proofs.C10_sharp Proofs.C10_scale Gen.HomSrc Proofs.C10_src.
+From SpdVerif Require Import Model.FinSum Model.Hom Model.Hom2 Model.C10_Pyth Proofs.C10_pyth Proofs.FinSum_lemmas Proofs.Cx_lemmas Proofs.CMat Proofs.C10_sums
+  Proofs.C10_svd Proofs.C10_expand Proofs.C10_identical Proofs.C10_setup Proofs.C10_exec Proofs.C10_sharp Proofs.C10_si_char Proofs.C10_scale Gen.HomSrc Proofs.C10_src.
 Local Open Scope R_scope.
 
 (* identical sources (six main grids = one array F), unit phases (zero delay):
@@ -91,6 +91,40 @@ Theorem C10_si_partial : forall n A u_ss u_ii u_si,
   ts_rate_si ROps n A u_si <= bound (jsi_norm ROps (n * n) (first_i2_i1 A) * jsi_norm ROps (n * n) (second_s2_s1 A)).
 Proof. exact ts_rates_sharp. Qed.
 
+(* exact characterisation of rate > 1 (known finding F10).  N12 = norm1 * norm2, B = sum |b|^2, X = sum Re(a conj(b u)):
+   rate = (N12 + B - 2X)/(4 N12);  rate > 1 <-> B - 2X > 3 N12;  for the signal-idler channel B = |f(wi2,wi1)|^2 |f(ws2,ws1)|^2 and
+   rate_si > 1 -> B > N12 (necessary),  B > 9 N12 -> rate_si > 1 whatever the phases (sufficient);  the necessary condition is
+   sharp: on unequal axes, for every lambda > 1 some amplitude has B = lambda^2 N12 and rate_si = (1+lambda)^2/4 *)
+Theorem C10_rate_gt1_iff : forall n A b u,
+  unit_phases u -> 0 < ts_N12 n A ->
+  (1 < ts_rate ROps n A b u <-> 3 * ts_N12 n A < b_norm n b - 2 * ts_cross n A b u).
+Proof. exact ts_rate_gt1_iff. Qed.
+
+Theorem C10_si_gt1_necessary : forall n A u,
+  unit_phases u -> 0 < ts_N12 n A -> 1 < ts_rate_si ROps n A u ->
+  ts_N12 n A < jsi_norm ROps (n * n) (first_i2_i1 A) * jsi_norm ROps (n * n) (second_s2_s1 A).
+Proof. exact si_gt1_necessary. Qed.
+
+Theorem C10_si_gt1_sufficient : forall n A u,
+  unit_phases u -> 0 < ts_N12 n A ->
+  9 * ts_N12 n A < jsi_norm ROps (n * n) (first_i2_i1 A) * jsi_norm ROps (n * n) (second_s2_s1 A) -> 1 < ts_rate_si ROps n A u.
+Proof. exact si_gt1_sufficient. Qed.
+
+Theorem C10_si_gt1_attained : forall x y lambda : R,
+  x <> y -> 1 < lambda ->
+  exists J : R -> R -> cx R,
+    let A := ts_tabulate J J (x, x) (y, y) (x, x) (y, y) 1 in
+    ts_N12 1 A = 1 /\
+    jsi_norm ROps (1 * 1) (first_i2_i1 A) * jsi_norm ROps (1 * 1) (second_s2_s1 A) = lambda * lambda /\
+    ts_rate_si ROps 1 A (fun _ _ => (1, 0)) = (1 + lambda) * (1 + lambda) / 4 /\
+    1 < ts_rate_si ROps 1 A (fun _ _ => (1, 0)).
+Proof. exact si_gt1_attained. Qed.
+
+Theorem C10_rate_lower : forall n A b u,
+  unit_phases u -> 0 < ts_N12 n A ->
+  (sqrt (b_norm n b) - sqrt (ts_N12 n A)) * (sqrt (b_norm n b) - sqrt (ts_N12 n A)) / (4 * ts_N12 n A) <= ts_rate ROps n A b u.
+Proof. exact ts_rate_lower. Qed.
+
 (* a setup against itself (SPDC::hom_two_source_rate_series), every delay: ss and ii always in [0,1]; si in [0,1] when the two
    auxiliary grids f(wi2, wi1), f(ws2, ws1) are not larger in norm than the main grid.
    PARTIAL for the signal-idler rate: on unequal signal and idler axes the norm condition is not a consequence of the model
@@ -145,6 +179,19 @@ Theorem C10_source_free_function : forall same J1 J2 a b ls1 li1 ls2 li2 n,
   src_ts_visibilities same J1 J2 a b ls1 li1 ls2 li2 n = setup_ts_visibilities same J1 J2 a b ls1 li1 ls2 li2 n.
 Proof. exact src_ts_free_function. Qed.
 
+(* the non-zero-delay twin: on arithmetic axes (signal x0 + s h, idler x0 + k h + r i h, n >= 2 points, h <> 0) and the delay
+   m0 atan(4/3) / h every phase factor is the rational (3/5 + 4/5 i)^m, and the rational instance equals the real-valued rates *)
+Theorem C10_pyth_twin : forall (n : nat) (x0 h : R) (k r m0 : Z),
+  (1 < n)%nat -> h <> 0 ->
+  forall l : list (list (cx Q)),
+  jsi_norm ROps (n * n) (first_s1_i1 (ts_R l)) * jsi_norm ROps (n * n) (second_s2_i2 (ts_R l)) <> 0 ->
+  let g := axes_grid (pyth_ls n x0 h) (pyth_li n x0 h k r) n in
+  let '(ss, ii, si) := ts_rates_Qpyth n l m0 k r in
+  Q2R ss = ts_rate_ss ROps n (ts_R l) (ts_phase_ss g g (pyth_delay m0 h)) /\
+  Q2R ii = ts_rate_ii ROps n (ts_R l) (ts_phase_ii g g (pyth_delay m0 h)) /\
+  Q2R si = ts_rate_si ROps n (ts_R l) (ts_phase_si g g (pyth_delay m0 h)).
+Proof. exact ts_rates_Qpyth_correct. Qed.
+
 (* ---- non-vacuity *)
 Example C10_nonvacuous_norm : jsi_norm ROps (2 * 2) (fun _ => (1, 0)) <> 0.
 Proof. unfold jsi_norm, cnorm2. cbn. lra. Qed.
@@ -175,10 +222,16 @@ Print Assumptions C10_time_delays_equal_sources.
 Print Assumptions C10_brightness_invariant.
 Print Assumptions C10_range_general.
 Print Assumptions C10_si_partial.
+Print Assumptions C10_rate_gt1_iff.
+Print Assumptions C10_si_gt1_necessary.
+Print Assumptions C10_si_gt1_sufficient.
+Print Assumptions C10_si_gt1_attained.
+Print Assumptions C10_rate_lower.
 Print Assumptions C10_range_partial.
 Print Assumptions C10_range_same_axes.
 Print Assumptions C10_source_is_model.
 Print Assumptions C10_source_wrappers.
 Print Assumptions C10_source_free_function.
+Print Assumptions C10_pyth_twin.
 Print Assumptions C10_exec_twin.
 Print Assumptions C10_exec_twin_purity.
